@@ -22,6 +22,7 @@ CONSTANTS
   ChanTO = 3
   MaxLife = 3600
   Denied <- MCDeniedV6
+  Vetoable = {}
   Toks = {"none"}
   ResvTO = 30
   QuotaDenied = {}
